@@ -71,6 +71,10 @@ impl Prop for C18 {
             order.swap(i, j);
         }
         let mut script: Vec<Op> = vec![Op::Build { sc: 0, cfg: 0, how: BuildHow::Uncached }];
+        let flavour = *rng.pick(&[0u8, 0, 0, 0, 0, 0, 1, 2, 3, 3]);
+        if flavour != 0 {
+            script.push(Op::SetFolderName { flavour });
+        }
         let prefixes = ["P", "out", "Test0", "with space", "pr\u{e4}fix", "a.b"];
         let mut prefix = rng.pick(&prefixes).to_string();
         script.push(Op::ExportDot { sc: 0, prefix: prefix.clone() });
@@ -106,7 +110,7 @@ impl Prop for C18 {
     fn expected_probes(&self) -> &'static [&'static str] {
         &[
             "probe.lookahead_cluster_verified", "probe.all_verdict_fault_kinds_fired", "probe.files_verified", "probe.multi_mode_export",
-            "probe.label_with_escapes", "probe.fault_on_non_last_mode_file", "probe.export_over_stale_file", "probe.export_after_heal", "probe.fancy_mode_name",
+            "probe.label_with_escapes", "probe.fault_on_non_last_mode_file", "probe.export_over_stale_file", "probe.export_after_heal", "probe.fancy_mode_name", "probe.non_utf8_folder_name",
             "fault.folder_missing", "fault.folder_not_a_dir", "fault.folder_read_only_perm", "fault.folder_read_only_fs",
             "fault.folder_name_is_dir", "fault.folder_stale_file",
         ]
@@ -575,6 +579,25 @@ impl<'w> Exec for Exec18<'w> {
                     // applied at export time (they depend on the file names) or are other folders
                     FolderFault::NameIsDir | FolderFault::StaleFile | FolderFault::ReadOnlyFs | FolderFault::Enospc => {}
                 }
+                StepOut::ok(Obs::Unit)
+            }
+            Op::SetFolderName { flavour } => {
+                use std::os::unix::ffi::OsStrExt;
+                set_mode(&self.home, 0o755);
+                let _ = std::fs::remove_dir_all(&self.home);
+                let base = self.home.parent().unwrap().to_path_buf();
+                let name: &[u8] = match flavour {
+                    1 => "t\u{e4}\u{20ac}".as_bytes(),
+                    2 => b"t with space",
+                    3 => b"t\xff\xfe",
+                    _ => b"t",
+                };
+                if *flavour == 3 {
+                    mark("probe.non_utf8_folder_name");
+                }
+                self.home = base.join(std::ffi::OsStr::from_bytes(name));
+                self.state = None;
+                self.reset_home();
                 StepOut::ok(Obs::Unit)
             }
             Op::HealFolder => {
